@@ -2,7 +2,8 @@
    r.parse s   -> "E" (InvalidRequirement) | "?" (marker literal with a backslash: outside the model) |
                   OK|name|sorted extras joined by ","|str(specifier)|U<url> or -|M<str(marker)> or -|str(r)
    r.rt s      -> "E" | "?" | RT|str(r)|<r.parse of str(r)>|T/F (Requirement(str(r)) == r): the round trip of str()
-   r.eq a b    -> "E" if either is invalid, "?" if either is outside the model, else T/F (Requirement.__eq__) *)
+   r.eq a b    -> "E" if either is invalid, "?" if either is outside the model, else T/F (Requirement.__eq__)
+   r.eqh a b   -> as r.eq, followed by T/F for "the hashes are equal" (model: the keys req_key are equal) *)
 From Coq Require Import List NArith Bool String.
 Import ListNotations.
 Require Import Show MText MkModel SpecContains ReqModel.
@@ -25,6 +26,19 @@ Definition obs_req_eq (a b : list N) : list N :=
   | _, _ => asc "E"
   end.
 
+(* r.eqh a b   -> "E" | "?" | two letters: Requirement.__eq__, and equality of what __hash__ hashes (req_key) *)
+Fixpoint rq_lists_eqb (a b : list (list N)) : bool :=
+  match a, b with [], [] => true | x :: a', y :: b' => rq_str_eqb x y && rq_lists_eqb a' b' | _, _ => false end.
+Definition rq_key_eqb (x y : rq_key) : bool :=
+  rq_str_eqb (k_name x) (k_name y) && rq_lists_eqb (k_extras x) (k_extras y) && rq_lists_eqb (k_specs x) (k_specs y)
+  && rq_opt_eqb (k_url x) (k_url y) && rq_opt_eqb (k_marker x) (k_marker y).
+Definition obs_req_eqh (a b : list N) : list N :=
+  match Requirement a, Requirement b with
+  | RqOk x, RqOk y => show_bool (req_eq x y) ++ show_bool (rq_key_eqb (req_key x) (req_key y))
+  | RqOracle, _ | _, RqOracle => asc "?"
+  | _, _ => asc "E"
+  end.
+
 Definition obs_req_rt (s : list N) : list N :=
   match Requirement s with
   | RqInvalid => asc "E"
@@ -38,4 +52,5 @@ Definition run_req (cmd : list N) (args : list (list N)) : option (list N) :=
   if seqb cmd (asc "r.parse") then Some (obs_req (nth_str 0 args))
   else if seqb cmd (asc "r.rt") then Some (obs_req_rt (nth_str 0 args))
   else if seqb cmd (asc "r.eq") then Some (obs_req_eq (nth_str 0 args) (nth_str 1 args))
+  else if seqb cmd (asc "r.eqh") then Some (obs_req_eqh (nth_str 0 args) (nth_str 1 args))
   else None.
